@@ -36,6 +36,8 @@ struct Shared {
     /// (encapsulation, secret, hybrid target?)
     queue: Mutex<Vec<(XEnc, [u8; 32], bool)>>,
     fresh: Mutex<HashSet<Vec<u8>>>,
+    /// last sampled position of the shared instance's generator in its key stream
+    last_pos: Mutex<u128>,
     ops_done: AtomicU64,
     stop: AtomicBool,
     findings: Mutex<Vec<Finding>>,
@@ -245,6 +247,18 @@ fn thread_body(sh: Arc<Shared>, tid: u64, n_ops: usize, seed: u64, replay: serde
                 }
             }
         }
+        // the instance's generator only ever moves forward: its stream position is sampled under
+        // the monitor's own lock (so that two samples are ordered in real time)
+        if st.get("ops") % 3 == 0 {
+            let mut last = sh.last_pos.lock().unwrap();
+            if let Out::Ok(p) = call_inf(|| sh.fx.cc.rng().get_word_pos()) {
+                st.bump("rng_position_samples");
+                if p < *last {
+                    fail(&sh, "instance-generator-moved-backwards", format!("stream position {p} after {} had been observed: output already handed out will be produced again", *last), &replay);
+                }
+                *last = p;
+            }
+        }
         sh.ops_done.fetch_add(1, Ordering::Relaxed);
         st.bump("ops");
     }
@@ -292,6 +306,7 @@ fn one_run(n_threads: usize, n_ops: usize, seed: u64, st: &mut Stats) -> bool {
         msk_bytes,
         queue: Mutex::new(vec![]),
         fresh: Mutex::new(HashSet::new()),
+        last_pos: Mutex::new(0),
         ops_done: AtomicU64::new(0),
         stop: AtomicBool::new(false),
         findings: Mutex::new(vec![]),
